@@ -296,3 +296,20 @@ def coll_fields(e):
     if c is None:
         return []
     return [x[2] for x in walk(c) if x[0] == 'field' and not x[2].isdigit() and x[2] != 'pointer']
+
+
+def ctor_field(crate, e, type_name, field, new_arg=None):
+    """value given to `field` of a `type_name` value built anywhere inside expression e: either through
+    the struct literal or through `Type::new(..)` (argument index new_arg) — robust to inlining / extracting
+    the trivial constructor"""
+    for sub in walk(e):
+        if sub[0] == 'agg' and sub[1].startswith('adt:') and sub[1].split('::')[-2 if sub[1].count('::') else -1].split(':')[-1] == type_name or \
+                (sub[0] == 'agg' and sub[1].startswith('adt:') and ('::' + type_name + '::') in (sub[1].replace('adt:', '::'))):
+            adt = crate.adts.get(type_name) or next((v for k, v in crate.adts.items() if k.endswith('::' + type_name)), None)
+            if adt and field in adt[0]['fields']:
+                i = adt[0]['fields'].index(field)
+                if i < len(sub[2]):
+                    return sub[2][i]
+        if new_arg is not None and sub[0] == 'call' and type_name in sub[1] and short(sub[1]) == 'new' and new_arg < len(sub[2]):
+            return sub[2][new_arg]
+    return None
